@@ -179,7 +179,9 @@ def vdesc(max_leaves=10, keys=None, objects=True, tuples=False, opaque=False,
         st.sampled_from([{'$o': 'SD', 'a': {}}, {'$o': 'SD', 'a': {'x': [1, 2], 'y': {'$o': 'P', 'a': {'x': 1}}}}]),
     ))
   if functors:
-    leaves.append(st.sampled_from([{'$functor': [1]}, {'$functor': [[1, 2]]}, {'$functor': [1, 5]}, {'$functor': [{'$d': [['k', 1]]}, [3]]}]))
+    leaves.append(st.sampled_from([{'$functor': [1]}, {'$functor': [[1, 2]]}, {'$functor': [1, 5]}, {'$functor': [{'$d': [['k', 1]]}, [3]]},
+                                     # (nested keys that are also names of arguments the functor leaves unspecified)
+                                     {'$functor': [{'$d': [['c', 1], ['b', [2]]]}]}, {'$functor': [[{'$d': [['args', 1], ['c', {'$d': [['b', 0]]}]]}]]}]))
   leaf = st.one_of(*leaves)
 
   def ext(c):
